@@ -80,6 +80,10 @@ class _Instance:
         """Connect-by-setattr"""
         if not getattr(self, "_initialized", False) or key.startswith("_"):
             # Bootstrapping phase: do regular setattrs to get started
+            if key.startswith("_") and is_connectable(val) and getattr(self, "_initialized", False):
+                # A connectable is being assigned to what looks like private data: surely meant as a connection.
+                msg = f"Cannot connect port `{key}` of {self} by assignment, as names starting with `_` are private. Use `connect`."
+                raise RuntimeError(msg)
             return object.__setattr__(self, key, val)
         if key in self.__getattribute__("_specialcases"):  # Special case(s)
             return object.__setattr__(self, key, val)
@@ -264,10 +268,10 @@ class InstanceArray(_Instance):
         self._initialized = True
 
     def __getitem__(self, idx: int):
-        return RuntimeError(f"Illegal indexing into Array {self}")
+        raise RuntimeError(f"Illegal indexing into Array {self}")
 
     def __setitem__(self, _idx: Any, _val: Any):
-        return RuntimeError(f"Illegal indexing into Array {self}")
+        raise RuntimeError(f"Illegal indexing into Array {self}")
 
 
 """ 
